@@ -200,6 +200,7 @@ reg(
         only_cfgs(_lazy("tables", "rule_tables", which=["trees::bp::"]), ["cli"]),
         only_cfgs(_lazy("structrules", "rule_sampleidx", floor=9), ["cli"]),
         only_cfgs(_lazy("structrules", "rule_tailmask", scope=r"^trees::bp::", floor=3), ["cli"]),
+        only_cfgs(_lazy("structrules", "rule_ctor_siblings"), ["cli"]),
         T1_ALL,
     ],
     quick=["cli", "simd"],
@@ -236,20 +237,26 @@ reg(
         only_cfgs(_lazy("cgrules", "rule_rec", entries=E_C19, name="REC(load/print)", floor=300), ["cli"]),
         only_cfgs(_lazy("cgrules", "rule_panicguard", entries=E_C19, name="PANICGUARD"), ["cli"]),
         only_cfgs(_lazy("cgrules", "rule_align"), ["cli"]),
+        only_cfgs(_lazy("charmap", "rule_json_decoder"), ["cli"]),
         T1_ALL,
     ],
     quick=["cli", "simd"],
-    technique="call-graph SCC analysis with dominance of depth guards; reachability; target-feature dominance dataflow; alignment rule on resolved generic casts",
+    technique="call-graph SCC analysis with dominance of depth guards; reachability; target-feature dominance dataflow; alignment rule on resolved generic casts; finite-domain evaluation of the string decoder (panic freedom on truncated escapes)",
 )
 
 reg(
     "C31",
     "other",
     "No alignment-increasing panicking cast is applied to caller-supplied bytes (ALIGN over every bytemuck call in the crate, alignment from the "
-    "resolved generic arguments). The value round trip is bytemuck's and is not decided; rebuilt-index equality reduces to C04/C07 arithmetic.",
-    [only_cfgs(_lazy("cgrules", "rule_align"), ["cli"])],
+    "resolved generic arguments). Every BalancedParens constructor (the ones from_parts rebuilds through and the primary ones) takes each index array from the "
+    "same element of build_bp_index's result tuple, the element the builder binds from the like-named local (CTOR), so a rebuilt index is assembled from the same "
+    "parts as the original. The value round trip is bytemuck's and is not decided; rebuilt-index equality otherwise reduces to C04/C07 arithmetic.",
+    [
+        only_cfgs(_lazy("cgrules", "rule_align"), ["cli"]),
+        only_cfgs(_lazy("structrules", "rule_ctor_siblings"), ["cli"]),
+    ],
     quick=["cli"],
-    technique="resolved-generic alignment rule over MIR call sites",
+    technique="resolved-generic alignment rule over MIR call sites; def-use sibling agreement of constructors over the index builder's result tuple",
 )
 
 
@@ -273,6 +280,19 @@ reg(
     [only_cfgs(_lazy("locate", "rule_locate", module="yaml::locate", mode="Yq", name="WRITERREADER(yq-locate)"), ["cli"])],
     quick=["cli"],
     technique="finite-domain evaluation of printer and parser MIR fragments (writer/reader table agreement)",
+)
+
+
+reg(
+    "C06",
+    "translation_validation",
+    "Only the string-decoding clause: json::light::decode_escapes is evaluated from MIR on a boundary-complete family of string bodies "
+    "(every byte after a backslash; \\u escapes at every code-point boundary and with every hex-digit class at every position; surrogate pairs valid, "
+    "reversed, lone, followed by other escapes; every truncation of a surrogate pair; raw UTF-8 runs incl. ill-formed) and must never panic and decode "
+    "exactly as RFC 8259 section 7 defines. Child/sibling/parent navigation, spans and number parsing are not decided.",
+    [only_cfgs(_lazy("charmap", "rule_json_decoder"), ["cli"])],
+    quick=["cli"],
+    technique="finite-domain evaluation of decoder MIR vs RFC 8259 section 7 reference decoder",
 )
 
 
